@@ -256,6 +256,13 @@ Definition zero_copy_view (ck : pchecks) (r : col_reader) (l : loaded) : res ran
   if nv <? 0 then Fault OobWrite          (* memset of a negative count on the level buffers *)
   else Ok (mkRange (r_off (ld_body l)) (nv * vs)).
 
+(** load_next_page_mmap after the header: the value count must not be negative; an eligible page without
+    levels becomes a view, any other page goes to the decoders (not modelled here: [None]). *)
+Definition mapped_data_page (ck : pchecks) (r : col_reader) (l : loaded) (has_levels : bool) : res (option range) :=
+  if pk_zc ck && (ph_num_values (ld_header l) <? 0) then Err E_CARQUET_ERROR_INVALID_PAGE else
+  if zero_copy_eligible (cm_codec (cr_meta r)) (ph_encoding (ld_header l)) (cr_type r) && negb has_levels
+  then rmap Some (zero_copy_view ck r l) else Ok None.
+
 (** Fixed-width dictionary: bytes copied out of the (decompressed) page of page_size bytes. *)
 Definition dictionary_copy (ck : pchecks) (r : col_reader) (dict_num_values page_size : Z) : res Z :=
   let vs := value_size (cr_type r) (cr_type_length r) in
